@@ -1,4 +1,4 @@
-package kit
+package memo
 
 import (
 	"fmt"
@@ -86,11 +86,11 @@ func (w *wfWalker) fail(format string, a ...any) {
 	}
 }
 
-func isNull(v *JV) bool { return v.Kind == jRaw && v.Str == "null" }
+func IsNull(v *JV) bool { return v.Kind == JRawKind && v.Str == "null" }
 
 // object returns the members of v by canonical name, noting duplicates and unknown names.
 func (w *wfWalker) object(v *JV, what string, known fieldSet, extra ...string) map[string]*JV {
-	if v.Kind != jObj {
+	if v.Kind != JObj {
 		w.fail("%s is not an object", what)
 		return nil
 	}
@@ -120,7 +120,7 @@ func (w *wfWalker) object(v *JV, what string, known fieldSet, extra ...string) m
 // clearly names no supported value.
 func enumValue(v *JV, names map[string]int64) (val int64, known bool) {
 	switch v.Kind {
-	case jRaw:
+	case JRawKind:
 		if i, err := strconv.ParseInt(v.Str, 10, 64); err == nil {
 			return i, true
 		}
@@ -128,7 +128,7 @@ func enumValue(v *JV, names map[string]int64) (val int64, known bool) {
 			return int64(f), true
 		}
 		return 0, false
-	case jStr:
+	case JString:
 		if i, ok := names[v.Str]; ok {
 			return i, true
 		}
@@ -141,11 +141,11 @@ func enumValue(v *JV, names map[string]int64) (val int64, known bool) {
 }
 
 func (w *wfWalker) attributes(v *JV, what string, allowed []string) {
-	if v == nil || isNull(v) {
+	if v == nil || IsNull(v) {
 		w.fail("%s: attributes missing", what)
 		return
 	}
-	if v.Kind != jObj {
+	if v.Kind != JObj {
 		w.fail("%s: attributes is not an object", what)
 		return
 	}
@@ -167,7 +167,7 @@ func (w *wfWalker) attributes(v *JV, what string, allowed []string) {
 		w.dup = true
 		return
 	}
-	if urlNode.Kind != jStr {
+	if urlNode.Kind != JString {
 		w.fail("%s: @type is not a string", what)
 		return
 	}
@@ -185,23 +185,23 @@ func (w *wfWalker) attributes(v *JV, what string, allowed []string) {
 	m := w.object(v, what+" attributes", attrFields[url], "@type")
 	switch url {
 	case urlHyp:
-		if c, has := m["max_fee"]; has && !isNull(c) {
+		if c, has := m["max_fee"]; has && !IsNull(c) {
 			w.object(c, what+" max_fee", coinFields)
 		}
 	case urlFee:
-		if fi, has := m["fees_info"]; has && !isNull(fi) {
-			if fi.Kind != jArr {
+		if fi, has := m["fees_info"]; has && !IsNull(fi) {
+			if fi.Kind != JArr {
 				w.fail("%s: fees_info is not an array", what)
 				return
 			}
 			for i, e := range fi.Arr {
-				if isNull(e) {
+				if IsNull(e) {
 					w.fail("%s: fees_info[%d] is null", what, i)
 					continue
 				}
 				fm := w.object(e, fmt.Sprintf("%s fees_info[%d]", what, i), feeInfoFields)
 				for _, k := range []string{"basis_points", "amount"} {
-					if x, has := fm[k]; has && !isNull(x) {
+					if x, has := fm[k]; has && !IsNull(x) {
 						w.object(x, fmt.Sprintf("%s fees_info[%d].%s", what, i, k), valueFields)
 					}
 				}
@@ -217,7 +217,7 @@ func WellFormedMemo(memo string) (Verdict, string) {
 		return Malformed, "not JSON: " + err.Error()
 	}
 	w := &wfWalker{}
-	if root.Kind != jObj {
+	if root.Kind != JObj {
 		return Malformed, "root is not an object"
 	}
 	nOrb := 0
@@ -234,7 +234,7 @@ func WellFormedMemo(memo string) (Verdict, string) {
 		w.dup = true
 	}
 	orb := root.Obj[len(root.Obj)-1].V
-	if isNull(orb) {
+	if IsNull(orb) {
 		return Malformed, "orbiter is null"
 	}
 	p := w.object(orb, "payload", payloadFields)
@@ -242,13 +242,13 @@ func WellFormedMemo(memo string) (Verdict, string) {
 		return Malformed, w.bad
 	}
 	fw, has := p["forwarding"]
-	if !has || isNull(fw) {
+	if !has || IsNull(fw) {
 		w.fail("no forwarding")
 	} else {
 		f := w.object(fw, "forwarding", forwardingFields)
 		if f != nil {
 			id, has := f["protocol_id"]
-			if !has || isNull(id) {
+			if !has || IsNull(id) {
 				w.fail("forwarding has no protocol identifier")
 			} else if v, known := enumValue(id, protocolEnum); !known || v < 1 || v > 4 {
 				w.fail("forwarding protocol identifier %s is not supported", id.String())
@@ -256,13 +256,13 @@ func WellFormedMemo(memo string) (Verdict, string) {
 			w.attributes(f["attributes"], "forwarding", []string{urlCCTP, urlHyp, urlInternal})
 		}
 	}
-	if pa, has := p["pre_actions"]; has && !isNull(pa) {
-		if pa.Kind != jArr {
+	if pa, has := p["pre_actions"]; has && !IsNull(pa) {
+		if pa.Kind != JArr {
 			w.fail("pre_actions is not an array")
 		} else {
 			seen := map[int64]bool{}
 			for i, a := range pa.Arr {
-				if isNull(a) {
+				if IsNull(a) {
 					w.fail("pre_actions[%d] is null", i)
 					continue
 				}
@@ -271,7 +271,7 @@ func WellFormedMemo(memo string) (Verdict, string) {
 					continue
 				}
 				id, has := am["id"]
-				if !has || isNull(id) {
+				if !has || IsNull(id) {
 					w.fail("pre_actions[%d] has no identifier", i)
 				} else if v, known := enumValue(id, actionEnum); !known || v < 1 || v > 2 {
 					w.fail("pre_actions[%d] identifier %s is not supported", i, id.String())
